@@ -105,3 +105,11 @@ package webrtc
 //@ props C30
 //@ ensures err == nil ==> ret0 != nil
 
+
+// The RTX repair reader runs on its own goroutine: a panic there kills the process. Every
+// index and slice expression of one loop iteration is in bounds for every packet the repair
+// stream can deliver (assumed contract on the interceptor's Read in zz_verif_contracts.go).
+//@ func (*RTPReceiver).maybeStartRepairStreamReader$1 #safety
+//@ props C30
+//@ timeout 45
+//@ requires r != nil && remoteTrack != nil && repairInterceptor != nil
